@@ -158,3 +158,821 @@ def op_multiset(m):
 
     g_(m.graph)
     return sorted(out)
+
+
+# ------------------------------------------------------------------------------------------------
+# TLC side: run the Optimizer.tla configurations of a tier, return the emitted cases
+# ------------------------------------------------------------------------------------------------
+VACUITY_TAGS = ["PE_If_inline", "FoldByReference", "PE_Reshape", "PE_Expand_sym", "PE_Shape", "PE_CastLike_Cast", "OutputReplaced",
+                "Rule:TransposeTranspose", "Rule:FuseSuccessiveReluClip", "Rule:FuseSuccessiveClip", "Rule:FuseMinMaxToClip",
+                "Rule:FuseMaxMinToClip", "Rule:add_0", "Rule:mul_by_1", "Rule:ReshapeReshape", "Rule:UnsqueezeUnsqueeze"]
+
+
+def _run(args):
+    module, cfg, kw = args
+    try:
+        return core.run_tlc(module, cfg, **kw)
+    except core.MachineryError as e:  # carried to the caller's thread
+        return e
+
+
+def tlc_cases(ctx):
+    """Runs the TLC configurations (in parallel JVMs): exhaustive design check + case emission, step-level design check,
+    simulation with the rich menus, one vacuity witness and the seeded-design ("canfail") runs.
+    Returns the list of distinct emitted cases."""
+    from concurrent.futures import ThreadPoolExecutor
+
+    sim_n = 60 if ctx.quick else 1500          # behaviours per TLC worker
+    W = max(2, core.NCPU // 2)
+    jobs = [
+        ("exhaustive", "Optimizer_quick.cfg" if ctx.quick else "Optimizer_thorough.cfg", dict(workers=W, timeout=3000)),
+        ("simulate", "Optimizer_sim.cfg" if ctx.quick else "Optimizer_sim5.cfg",
+         dict(workers=W, simulate=f"num={sim_n}", depth=100, seed=ctx.seed + 1, timeout=3000)),
+        ("steps", "Optimizer_steps.cfg", dict(workers=4, timeout=1500)),
+        ("vacuity", "Optimizer_vacuity.cfg", dict(workers=2, timeout=900)),
+        ("canfail_sameshape", "Optimizer_canfail_sameshape.cfg", dict(workers=4, timeout=900)),
+        ("canfail_transpose", "Optimizer_canfail_transpose.cfg", dict(workers=4, timeout=900)),
+        ("canfail_foldinput", "Optimizer_canfail_foldinput.cfg", dict(workers=2, timeout=900)),
+        ("canfail_clearinit", "Optimizer_canfail_clearinit.cfg", dict(workers=2, timeout=900)),
+    ]
+    with ThreadPoolExecutor(max_workers=4) as ex:
+        results = list(ex.map(_run, [("Optimizer", cfg, kw) for _, cfg, kw in jobs]))
+    cases = {}
+    for (label, cfg, _), res in zip(jobs, results):
+        if isinstance(res, Exception):
+            raise res
+        ctx.tlc(res, f"{cfg} ({label})")
+        if label in ("exhaustive", "simulate", "steps"):
+            if res.violated or not res.ok:
+                raise core.MachineryError(f"TLC reports {res.violated} on {cfg}: the design level of Optimizer.tla violates the property\n{res.out[-2500:]}")
+            for pr in res.printed:
+                if pr and pr[0] == "CASE" and pr[1] not in cases:
+                    cases[pr[1]] = label
+        elif label == "vacuity":
+            if res.violated != "NeverDeviates":
+                raise core.MachineryError("vacuity: no behaviour of the implementation model takes a deviation (NeverDeviates holds)")
+        else:
+            if res.violated != "PropertyHolds":
+                raise core.MachineryError(f"{cfg}: the seeded defect of the design is not detected by the invariants (got {res.violated})")
+    out = []
+    for text, label in cases.items():
+        c = json.loads(text)
+        c["src"] = label
+        out.append(c)
+    tags = set()
+    for c in out:
+        for t in c["log"]:
+            p = t.split(":")
+            tags.add(p[0] if p[0] != "Rule" else "Rule:" + p[1])
+    missing = [t for t in VACUITY_TAGS if t not in tags]
+    if missing:
+        raise core.MachineryError(f"vacuity: optimizer steps never taken by any derived model: {missing}")
+    ctx.set("spec_models", len(out))
+    ctx.set("spec_steps_seen", sorted(tags))
+    return out
+
+
+def outmeta(case):
+    return [{"dt": t["dt"], "rank": len(t["shape"])} for t in case["expect"][0]]
+
+
+# ------------------------------------------------------------------------------------------------
+# the real entry points under their options
+# ------------------------------------------------------------------------------------------------
+VARIANTS = ["optimize", "optimize_ir_i1_noinf", "optimize_i3_nostop_in0", "optimize_out0", "optimize_small", "optimize_noinline",
+            "optimize_ir_shouldfold", "fold_constants", "fold_constants_ir_inf_shouldfold", "remove_unused_nodes", "rewrite", "rewrite_pass_ir"]
+
+
+def apply_variant(name, m):
+    """m: a private ModelProto copy.  Returns the resulting ModelProto."""
+    import onnxscript.optimizer as opt
+    from onnxscript import ir, rewriter
+    from onnxscript.optimizer import _optimizer
+
+    def via_ir(fn):
+        im = ir.serde.deserialize_model(m)
+        r = fn(im)
+        return ir.serde.serialize_model(im if r is None or not isinstance(r, ir.Model) else r)
+
+    if name == "optimize":
+        return opt.optimize(m)
+    if name == "optimize_ir_i1_noinf":
+        return via_ir(lambda im: opt.optimize(im, num_iterations=1, onnx_shape_inference=False))
+    if name == "optimize_i3_nostop_in0":
+        return opt.optimize(m, num_iterations=3, stop_if_no_change=False, input_size_limit=0)
+    if name == "optimize_out0":
+        return opt.optimize(m, output_size_limit=0)
+    if name == "optimize_small":
+        return opt.optimize(m, num_iterations=1, input_size_limit=2, output_size_limit=2)
+    if name == "optimize_noinline":
+        return opt.optimize(m, inline=False)
+    if name == "optimize_ir_shouldfold":
+        return via_ir(lambda im: _optimizer.optimize_ir(im, should_fold=lambda node: True))
+    if name == "fold_constants":
+        opt.fold_constants(m)
+        return m
+    if name == "fold_constants_ir_inf_shouldfold":
+        return via_ir(lambda im: opt.fold_constants(im, onnx_shape_inference=True, should_fold=lambda node: True) and None)
+    if name == "remove_unused_nodes":
+        opt.remove_unused_nodes(m)
+        return m
+    if name == "rewrite":
+        return rewriter.rewrite(m)
+    if name == "rewrite_pass_ir":
+        return via_ir(lambda im: rewriter.RewritePass(rewriter._DEFAULT_REWRITE_RULES)(im).model)
+    raise ValueError(name)
+
+
+def exc_text(e):
+    """exception chain, innermost first (the innermost names the rule / evaluator that failed)"""
+    parts = []
+    seen = set()
+    while e is not None and id(e) not in seen:
+        seen.add(id(e))
+        parts.append(f"{type(e).__name__}: {str(e)[:160]}")
+        e = e.__cause__ or e.__context__
+    return " <- ".join(reversed(parts))[:700]
+
+
+def exc_site(e):
+    """file:function of the innermost frame inside onnxscript / onnx_ir"""
+    import traceback
+
+    site = ""
+    seen = set()
+    while e is not None and id(e) not in seen:
+        seen.add(id(e))
+        for fr in traceback.extract_tb(e.__traceback__):
+            if "onnxscript" in fr.filename or "onnx_ir" in fr.filename:
+                site = f"{os.path.basename(fr.filename)}:{fr.name}"
+        e = e.__cause__ or e.__context__
+        if e is not None:
+            site = ""
+    return site
+
+
+# ------------------------------------------------------------------------------------------------
+# observation helpers
+# ------------------------------------------------------------------------------------------------
+def close(a, b, rtol=1e-5, atol=1e-6):
+    """the property's output relation: same dtype and runtime shape; ints/bools/strings bit-equal; floats up to round-off,
+    NaN and infinities positional"""
+    a = np.asarray(a)
+    b = np.asarray(b)
+    if a.dtype != b.dtype or a.shape != b.shape:
+        return False
+    if a.dtype.kind in "fc":
+        with np.errstate(all="ignore"):
+            return bool(np.allclose(a, b, rtol=rtol, atol=atol, equal_nan=True))
+    if a.dtype.kind == "O":
+        return a.tolist() == b.tolist()
+    return bool(np.array_equal(a, b))
+
+
+def same_outputs(xs, ys, rtol=1e-5, atol=1e-6):
+    if len(xs) != len(ys):
+        return False
+    for x, y in zip(xs, ys):
+        if isinstance(x, list) or isinstance(y, list):       # sequence outputs
+            if not (isinstance(x, list) and isinstance(y, list) and same_outputs(x, y, rtol, atol)):
+                return False
+        elif x is None or y is None:
+            if not (x is None and y is None):
+                return False
+        elif not close(x, y, rtol, atol):
+            return False
+    return True
+
+
+def brief(xs):
+    out = []
+    for x in xs:
+        if isinstance(x, list):
+            out.append(brief(x))
+        elif x is None:
+            out.append(None)
+        else:
+            a = np.asarray(x)
+            out.append(f"{a.dtype}{list(a.shape)}{a.reshape(-1).tolist()[:6]}")
+    return out
+
+
+def signature(m):
+    """(inputs, outputs, overridable): [(name, elem_type, dims)], dims: int | str | None per dim, or None when no shape"""
+
+    def vi(v):
+        tt = v.type.tensor_type
+        if v.type.HasField("tensor_type"):
+            dims = None
+            if tt.HasField("shape"):
+                dims = [d.dim_value if d.HasField("dim_value") else (d.dim_param or None) for d in tt.shape.dim]
+            return (v.name, tt.elem_type, dims)
+        return (v.name, v.type.WhichOneof("value"), None)
+
+    inits = {i.name for i in m.graph.initializer}
+    return ([vi(v) for v in m.graph.input], [vi(v) for v in m.graph.output], sorted(v.name for v in m.graph.input if v.name in inits))
+
+
+def sig_diff(before, after):
+    """names, order, element types must be kept; a shape may be refined but a static dim / the rank may not change"""
+    msgs = []
+    for what, b, a in (("input", before[0], after[0]), ("output", before[1], after[1])):
+        if [x[0] for x in b] != [x[0] for x in a]:
+            msgs.append(f"{what} names {[x[0] for x in b]} -> {[x[0] for x in a]}")
+            continue
+        for x, y in zip(b, a):
+            if x[1] != y[1]:
+                msgs.append(f"{what} {x[0]}: element type {x[1]} -> {y[1]}")
+            elif x[2] is not None and y[2] is not None:
+                if len(x[2]) != len(y[2]):
+                    msgs.append(f"{what} {x[0]}: rank {len(x[2])} -> {len(y[2])}")
+                elif any(isinstance(p, int) and isinstance(q, int) and p != q for p, q in zip(x[2], y[2])):
+                    msgs.append(f"{what} {x[0]}: shape {x[2]} -> {y[2]}")
+    if before[2] != after[2]:
+        lost = [n for n in before[2] if n not in after[2]]
+        if lost:
+            msgs.append(f"overridable initializer-inputs lost their default: {lost}")
+    return msgs
+
+
+# ------------------------------------------------------------------------------------------------
+# direction A: one TLC case -> real model -> entry points -> observations
+# ------------------------------------------------------------------------------------------------
+NPROBE = 3            # probes 0..2: plain feeds (overridable defaults omitted); probe 3 (if any): overrides supplied
+
+
+def replay_case(arg):
+    """arg = (idx, case, variant names, want_abstract).  Returns observations only (small, picklable)."""
+    import onnx
+
+    idx, case, vnames, want_abs = arg
+    out = {"idx": idx, "invalid": None, "spec_eval": None, "variants": []}
+    m = build_model(case["model"], outmeta(case))
+    try:
+        onnx.checker.check_model(m)
+    except Exception as e:  # noqa: BLE001
+        out["invalid"] = f"checker rejects the derived model: {str(e)[:200]}"
+        return out
+    feeds = [{k: to_np(v) for k, v in f.items()} for f in case["feeds"]]
+    try:
+        sess0 = core.ort_session(m)
+        orig = [sess0.run(None, f) for f in feeds]
+    except Exception as e:  # noqa: BLE001
+        out["invalid"] = f"onnxruntime cannot run the derived model: {str(e)[:200]}"
+        return out
+    for k, (got, exp) in enumerate(zip(orig, case["expect"])):
+        if not same_outputs(got, [to_np(t) for t in exp]):
+            out["spec_eval"] = f"probe {k}: Optimizer.tla Eval gives {[t for t in exp]} but onnxruntime(original) gives {brief(got)}"
+            break
+    sig0 = signature(m)
+    for vn in vnames:
+        v = {"name": vn, "exc": None, "site": "", "check": None, "sig": [], "fail": [], "ops": None, "pred": [], "abs": None}
+        out["variants"].append(v)
+        m1 = onnx.ModelProto()
+        m1.CopyFrom(m)
+        try:
+            m2 = apply_variant(vn, m1)
+        except Exception as e:  # noqa: BLE001
+            v["exc"] = exc_text(e)
+            v["site"] = exc_site(e)
+            continue
+        try:
+            onnx.checker.check_model(m2)
+        except Exception as e:  # noqa: BLE001
+            v["check"] = str(e)[:300]
+        v["sig"] = sig_diff(sig0, signature(m2))
+        if vn == "optimize":
+            v["ops"] = op_multiset(m2)
+        if want_abs:
+            v["abs"] = core.abstract_model(f"{idx}/{vn}", m2)
+        try:
+            sess = core.ort_session(m2)
+        except Exception as e:  # noqa: BLE001
+            v["fail"].append((-1, "load", str(e)[:300]))
+            v["text"] = describe(m2, 1500)
+            continue
+        for k, f in enumerate(feeds):
+            try:
+                got = sess.run(None, f)
+            except Exception as e:  # noqa: BLE001
+                got = None
+                msg = str(e)[:200]
+            if got is None:
+                v["fail"].append((k, "run", msg))
+            elif not same_outputs(orig[k], got):
+                v["fail"].append((k, "value", f"original {brief(orig[k])} optimized {brief(got)}"))
+            if vn == "optimize" and not case["raised"]:
+                pred = case["outs"][k]
+                pred_ok = pred == case["expect"][k]
+                real_ok = got is not None and same_outputs(orig[k], got)
+                # the model's prediction is wrong if it predicts a departure that does not happen, or - for a run that took
+                # no deviation - anything else than what happens
+                if real_ok and not pred_ok:
+                    v["pred"].append(f"probe {k}: model predicts {pred} but the optimized model returns the original's outputs")
+                elif not real_ok and pred_ok and not case["used"]:
+                    v["pred"].append(f"probe {k}: model predicts conformance, real: {v['fail'][-1][2]}")
+        if v["fail"]:
+            v["text"] = describe(m2, 1500)
+    return out
+
+
+def case_guards(case):
+    """deviation ids whose guard (a predicate over the ORIGINAL model) holds - used to attribute a failure of an entry point /
+    option tuple other than the one the TLC run models"""
+    g = set(case["used"])
+    model = case["model"]
+    names_in = {i["name"] for i in model["ins"]}
+    if any(i["kind"] == "ovr" for i in model["ins"]):
+        g |= {"overridable_read_as_const", "overridable_default_dropped"}
+    if any(o in names_in for o in model["outs"]):
+        g.add("graph_input_output_renamed")
+    const = {i["name"]: i["val"] for i in model["inits"]}
+
+    def walk(nodes, const):
+        const = dict(const)
+        prod = {}
+        for n in nodes:
+            if n["op"] == "Constant":
+                const[n["outs"][0]] = n["at"]["val"]
+            for o in n["outs"]:
+                prod[o] = n
+        for n in nodes:
+            if n["op"] in ("Relu", "Clip") and n["ins"] and n["ins"][0] in prod and prod[n["ins"][0]]["op"] in ("Relu", "Clip"):
+                g.add("relu_clip_no_dtype_raise")
+                inner = prod[n["ins"][0]]
+
+                def bound(nd, i):
+                    if nd["op"] == "Clip" and len(nd["ins"]) > i and nd["ins"][i] and nd["ins"][i] in const:
+                        return const[nd["ins"][i]]["data"][0]
+                    return None
+
+                if n["op"] == "Relu" and inner["op"] == "Clip" and bound(inner, 2) is not None and bound(inner, 2) < 0:
+                    g.add("relu_clip_negmax")
+                if n["op"] == "Clip" and inner["op"] == "Clip" and bound(n, 1) is not None and bound(inner, 2) is not None and bound(n, 1) > bound(inner, 2):
+                    g.add("clip_clip_disjoint")
+            for sg in n["sub"]:
+                walk(sg["nodes"], {**const, **{i["name"]: i["val"] for i in sg["inits"]}})
+
+    walk(model["nodes"], const)
+    return g
+
+
+def attribute(case, v, symptom, detail):
+    """deviation id explaining a failure, or None.  symptom: raise | value | run | load | sig | check | wf"""
+    g = case_guards(case)
+    if symptom == "raise":
+        if "relu_clip_no_dtype_raise" in g and "_fuse_relus_clips" in v["site"] and "NoneType" in detail:
+            return "relu_clip_no_dtype_raise"
+        return None
+    if symptom == "sig":
+        if "graph_input_output_renamed" in g and "_orig" in detail and "input names" in detail:
+            return "graph_input_output_renamed"
+        if "overridable_default_dropped" in g and "lost their default" in detail:
+            return "overridable_default_dropped"
+        return None
+    if symptom in ("run", "load"):
+        if "graph_input_output_renamed" in g and "_orig" in detail:
+            return "graph_input_output_renamed"
+        if "overridable_default_dropped" in g and "Required inputs" in detail:
+            return "overridable_default_dropped"
+        if "overridable_read_as_const" in g and v.get("probe") == NPROBE:
+            return "overridable_read_as_const"
+        return None
+    if symptom == "value":
+        if v.get("probe") == NPROBE:
+            return "overridable_read_as_const" if "overridable_read_as_const" in g else None
+        for d in ("relu_clip_negmax", "clip_clip_disjoint"):
+            if d in g:
+                return d
+        return None
+    return None
+
+
+# ------------------------------------------------------------------------------------------------
+# quantifier (b): the ONNX backend test models shipped with the installed onnx package, lifted
+# ------------------------------------------------------------------------------------------------
+LIB_SETS = ["node", "pytorch-converted", "pytorch-operator", "simple"]
+LIFTS = ["plain", "const", "ovr", "if_const", "if_input", "func"]
+LIB_VARIANTS = ["optimize", "optimize_ir_i1_noinf", "fold_constants", "fold_constants_ir_inf_shouldfold", "rewrite", "optimize_noinline",
+                "optimize_i3_nostop_in0", "remove_unused_nodes", "optimize_ir_shouldfold"]
+NONDET_OPS = {"RandomUniform", "RandomNormal", "RandomUniformLike", "RandomNormalLike", "Multinomial", "Bernoulli"}
+
+
+def library_models():
+    import onnx
+
+    base = os.path.join(os.path.dirname(onnx.__file__), "backend", "test", "data")
+    out = []
+    for s in LIB_SETS:
+        d = os.path.join(base, s)
+        if not os.path.isdir(d):
+            continue
+        for name in sorted(os.listdir(d)):
+            p = os.path.join(d, name)
+            if os.path.exists(os.path.join(p, "model.onnx")) and os.path.isdir(os.path.join(p, "test_data_set_0")):
+                out.append(f"{s}/{name}")
+    return out
+
+
+def _load_value(path, typ):
+    import onnx
+    from onnx import numpy_helper
+
+    with open(path, "rb") as f:
+        data = f.read()
+    kind = typ.WhichOneof("value")
+    if kind == "tensor_type":
+        t = onnx.TensorProto()
+        t.ParseFromString(data)
+        return numpy_helper.to_array(t)
+    if kind == "sequence_type":
+        s = onnx.SequenceProto()
+        s.ParseFromString(data)
+        return numpy_helper.to_list(s)
+    raise ValueError("unsupported value kind " + str(kind))
+
+
+def load_library(rel):
+    """-> (ModelProto, [inputs], [recorded outputs]) of test_data_set_0"""
+    import onnx
+
+    base = os.path.join(os.path.dirname(onnx.__file__), "backend", "test", "data", rel)
+    m = onnx.load(os.path.join(base, "model.onnx"))
+    inits = {i.name for i in m.graph.initializer}
+    gin = [i for i in m.graph.input if i.name not in inits]
+    d = os.path.join(base, "test_data_set_0")
+    ins = [_load_value(os.path.join(d, f"input_{k}.pb"), v.type) for k, v in enumerate(gin) if os.path.exists(os.path.join(d, f"input_{k}.pb"))]
+    outs = [_load_value(os.path.join(d, f"output_{k}.pb"), v.type) for k, v in enumerate(m.graph.output) if os.path.exists(os.path.join(d, f"output_{k}.pb"))]
+    if len(ins) != len(gin) or len(outs) != len(m.graph.output):
+        raise ValueError("incomplete data set")
+    return m, gin, ins, outs
+
+
+def _has_graph_attr(m):
+    return any(a.type in (a.GRAPH, a.GRAPHS) for n in m.graph.node for a in n.attribute)
+
+
+def _rename_graph(g, keep, prefix):
+    """copy of g's nodes/initializers/outputs with every value name not in `keep` prefixed"""
+    import onnx
+
+    def r(nm):
+        return nm if (nm == "" or nm in keep) else prefix + nm
+
+    nodes = []
+    for n in g.node:
+        n2 = onnx.NodeProto()
+        n2.CopyFrom(n)
+        n2.name = prefix + (n.name or "n")
+        del n2.input[:]
+        del n2.output[:]
+        n2.input.extend(r(x) for x in n.input)
+        n2.output.extend(r(x) for x in n.output)
+        nodes.append(n2)
+    return nodes, r
+
+
+def lift(m, gin, ins, mode):
+    """lifted copy of m and the feeds to use: returns (model, feeds list, recorded_applicable per feed) or raises ValueError"""
+    import onnx
+    from onnx import TensorProto, helper, numpy_helper
+
+    m2 = onnx.ModelProto()
+    m2.CopyFrom(m)
+    g = m2.graph
+    names = [v.name for v in gin]
+    tensor_inputs = all(isinstance(x, np.ndarray) for x in ins)
+    plain_feed = dict(zip(names, ins))
+    if mode == "plain":
+        return m2, [plain_feed], [True]
+    m2.ir_version = max(m2.ir_version, 8)      # initializers that are not graph inputs (IR >= 4), model-local functions (IR >= 8)
+    if mode in ("const", "ovr"):
+        if not tensor_inputs or not names:
+            raise ValueError("needs tensor inputs")
+        if any(x.dtype.kind in "OUS" for x in ins) and mode == "ovr":
+            raise ValueError("string defaults")
+        for nm, x in zip(names, ins):
+            g.initializer.append(numpy_helper.from_array(x, nm))
+        if mode == "const":
+            keep = [v for v in g.input if v.name not in names]
+            del g.input[:]
+            g.input.extend(keep)
+            return m2, [{}], [True]
+        # overridable defaults: omitted / supplied as recorded / supplied with other float values
+        other = {nm: (x * 0.5 + 0.25).astype(x.dtype) if x.dtype.kind == "f" else x for nm, x in zip(names, ins)}
+        feeds = [{}, plain_feed]
+        rec = [True, True]
+        if any(x.dtype.kind == "f" and x.size for x in ins):
+            feeds.append(other)
+            rec.append(False)
+        return m2, feeds, rec
+    if mode in ("if_const", "if_input"):
+        if _has_graph_attr(m):
+            raise ValueError("nested graphs are not renamed")
+        if not all(o.type.HasField("tensor_type") or o.type.HasField("sequence_type") for o in g.output):
+            raise ValueError("output kind")
+        outer = set(names)
+        branches = []
+        for prefix in ("t_", "e_"):
+            nodes, r = _rename_graph(g, outer, prefix)
+            inits = []
+            for i in g.initializer:
+                if i.name in outer:
+                    continue
+                t = onnx.TensorProto()
+                t.CopyFrom(i)
+                t.name = r(i.name)
+                inits.append(t)
+            outs = []
+            for o in g.output:
+                v = onnx.ValueInfoProto()
+                v.CopyFrom(o)
+                v.name = r(o.name)
+                if v.name in outer:          # a branch may not return an outer value directly
+                    nodes.append(helper.make_node("Identity", [v.name], [prefix + "id_" + v.name]))
+                    v.name = prefix + "id_" + v.name
+                outs.append(v)
+            branches.append(helper.make_graph(nodes, prefix + "branch", [], outs, inits))
+        cond_name = "verif_cond"
+        ifn = helper.make_node("If", [cond_name], [o.name for o in g.output], then_branch=branches[0], else_branch=branches[1], name="verif_if")
+        keep_inputs = [v for v in g.input if v.name in outer]
+        keep_inits = [i for i in g.initializer if i.name in outer]
+        new_inputs = list(keep_inputs)
+        new_inits = list(keep_inits)
+        feeds = [dict(plain_feed)]
+        if mode == "if_const":
+            new_inits.append(numpy_helper.from_array(np.array(True), cond_name))
+        else:
+            new_inputs.append(helper.make_tensor_value_info(cond_name, TensorProto.BOOL, []))
+            feeds = [dict(plain_feed, **{cond_name: np.array(True)}), dict(plain_feed, **{cond_name: np.array(False)})]
+        g2 = helper.make_graph([ifn], g.name + "_if", new_inputs, list(g.output), new_inits)
+        m2.graph.CopyFrom(g2)
+        return m2, feeds, [True] * len(feeds)
+    if mode == "func":
+        dom = "verif.local"
+        body = []
+        for i in g.initializer:
+            if i.name in names:
+                raise ValueError("initializer-inputs")
+            body.append(helper.make_node("Constant", [], [i.name], value=i))
+        call_attrs = {}
+        ref_done = False
+        for n in g.node:
+            n2 = onnx.NodeProto()
+            n2.CopyFrom(n)
+            if not ref_done:
+                for a in n2.attribute:
+                    if a.type in (a.INT, a.FLOAT, a.INTS, a.STRING) and not a.ref_attr_name:
+                        call_attrs["verif_a0"] = helper.get_attribute_value(a)
+                        a2 = onnx.AttributeProto()
+                        a2.name = a.name
+                        a2.type = a.type
+                        a2.ref_attr_name = "verif_a0"
+                        a.CopyFrom(a2)
+                        ref_done = True
+                        break
+            body.append(n2)
+        out_names = [o.name for o in g.output]
+        # a function output must be produced inside the function
+        fouts = []
+        for o in out_names:
+            if o in names:
+                body.append(helper.make_node("Identity", [o], ["f_id_" + o]))
+                fouts.append("f_id_" + o)
+            else:
+                fouts.append(o)
+        imports = list(m.opset_import)
+        fn = helper.make_function(dom, "VerifLifted", names, fouts, body, opset_imports=imports, attributes=list(call_attrs))
+        call = helper.make_node("VerifLifted", names, ["call_" + o for o in out_names], domain=dom, name="verif_call", **call_attrs)
+        outs = []
+        for o in g.output:
+            v = onnx.ValueInfoProto()
+            v.CopyFrom(o)
+            v.name = "call_" + o.name
+            outs.append(v)
+        g2 = helper.make_graph([call], g.name + "_call", [v for v in g.input if v.name in names], outs, [])
+        m2.graph.CopyFrom(g2)
+        m2.opset_import.append(helper.make_opsetid(dom, 1))
+        m2.functions.append(fn)
+        return m2, [plain_feed], [True]
+    raise ValueError(mode)
+
+
+def _ort_vals(xs):
+    return xs
+
+
+def replay_library(arg):
+    """arg = (rel path, lift modes, variant names, want_abstract, tolerance).  Observations per (mode, variant)."""
+    import onnx
+
+    rel, modes, vnames, want_abs = arg
+    out = {"rel": rel, "skip": None, "runs": []}
+    try:
+        m, gin, ins, rec = load_library(rel)
+    except Exception as e:  # noqa: BLE001
+        out["skip"] = f"load: {type(e).__name__}: {str(e)[:100]}"
+        return out
+    if any(n.op_type in NONDET_OPS for n in m.graph.node) or any(n.op_type in NONDET_OPS for f in m.functions for n in f.node):
+        out["skip"] = "non-deterministic operator"
+        return out
+    RT, AT = 1e-3, 1e-5
+    for mode in modes:
+        r = {"mode": mode, "skip": None, "variants": []}
+        out["runs"].append(r)
+        try:
+            lm, feeds, rec_ok = lift(m, gin, ins, mode)
+            onnx.checker.check_model(lm)
+            sess0 = core.ort_session(lm)
+            orig = [sess0.run(None, f) for f in feeds]
+            again = sess0.run(None, feeds[0])
+            if not same_outputs(orig[0], again, RT, AT):
+                raise ValueError("original is not deterministic")
+        except Exception as e:  # noqa: BLE001
+            r["skip"] = f"{type(e).__name__}: {str(e)[:120]}"
+            continue
+        r["ort_vs_recorded"] = bool(same_outputs(orig[0], rec, RT, AT)) if rec_ok[0] else None
+        r["feats"] = lib_features(lm)
+        if want_abs:
+            r["abs0"] = core.abstract_model(f"{rel}/{mode}/orig", lm)
+        sig0 = signature(lm)
+        for vn in vnames:
+            v = {"name": vn, "exc": None, "site": "", "check": None, "sig": [], "fail": [], "abs": None, "nodes": None}
+            r["variants"].append(v)
+            m1 = onnx.ModelProto()
+            m1.CopyFrom(lm)
+            try:
+                m2 = apply_variant(vn, m1)
+            except Exception as e:  # noqa: BLE001
+                v["exc"] = exc_text(e)
+                v["site"] = exc_site(e)
+                continue
+            try:
+                onnx.checker.check_model(m2)
+            except Exception as e:  # noqa: BLE001
+                v["check"] = str(e)[:300]
+            v["sig"] = sig_diff(sig0, signature(m2))
+            v["nodes"] = (len(lm.graph.node), len(m2.graph.node))
+            if want_abs:
+                v["abs"] = core.abstract_model(f"{rel}/{mode}/{vn}", m2)
+            try:
+                sess = core.ort_session(m2)
+            except Exception as e:  # noqa: BLE001
+                v["fail"].append((-1, "load", str(e)[:300]))
+                continue
+            for k, f in enumerate(feeds):
+                try:
+                    got = sess.run(None, f)
+                except Exception as e:  # noqa: BLE001
+                    v["fail"].append((k, "run", str(e)[:200]))
+                    continue
+                if same_outputs(orig[k], got, RT, AT):
+                    continue
+                if rec_ok[k] and same_outputs(got, rec, RT, AT):
+                    v.setdefault("ort_disagrees", 0)
+                    v["ort_disagrees"] += 1       # the optimized model returns the recorded (ONNX-defined) outputs: the runtime differs
+                    continue
+                v["fail"].append((k, "value", f"original {brief(orig[k])} optimized {brief(got)}" + (f" recorded {brief(rec)}" if rec_ok[k] else "")))
+    return out
+
+
+# ------------------------------------------------------------------------------------------------
+# shared drivers for C03 / C04
+# ------------------------------------------------------------------------------------------------
+def quiet():
+    import logging
+    import warnings
+
+    logging.disable(logging.ERROR)
+    warnings.filterwarnings("ignore")
+
+
+def _replay_case_q(arg):
+    quiet()
+    return replay_case(arg)
+
+
+def _replay_library_q(arg):
+    quiet()
+    return replay_library(arg)
+
+
+def select_cases(ctx, cases, n_quick):
+    """quick: every case whose implementation-model run takes a deviation or raises (bounded), every case with If / overridable
+    input / symbolic world (bounded), then a seeded sample of the rest; thorough: all"""
+    import random
+
+    if not ctx.quick:
+        return cases
+    rng = random.Random(ctx.seed)
+    dev = [c for c in cases if c["used"] or c["raised"]]
+    rest = [c for c in cases if not (c["used"] or c["raised"])]
+    rich = [c for c in rest if c["src"] == "simulate"]
+    slim = [c for c in rest if c["src"] != "simulate"]
+    for l in (dev, rich, slim):
+        rng.shuffle(l)
+    return dev[: n_quick // 4] + rich[: n_quick // 4] + slim[: n_quick // 2]
+
+
+def variants_for(ctx, idx):
+    """the default optimize() always (its structure is predicted by the spec); quick: three more entry points / option tuples in
+    rotation; thorough: all"""
+    others = VARIANTS[1:]
+    if not ctx.quick:
+        return list(VARIANTS)
+    k = (idx + ctx.seed) % len(others)
+    return ["optimize"] + [others[(k + j * 4) % len(others)] for j in range(3)]
+
+
+def direction_a(ctx, want_abs):
+    """TLC cases -> real code.  Returns [(case, observations)]"""
+    cases = tlc_cases(ctx)
+    chosen = select_cases(ctx, cases, 1600)
+    args = [(i, c, variants_for(ctx, i), want_abs) for i, c in enumerate(chosen)]
+    res = core.pmap_safe(_replay_case_q, args, timeout=120)
+    return list(zip(chosen, res))
+
+
+def library_plan(ctx):
+    import random
+
+    rels = library_models()
+    rng = random.Random(ctx.seed + 7)
+    if ctx.quick:
+        rels = rng.sample(rels, min(len(rels), 260))
+    plan = []
+    for i, rel in enumerate(rels):
+        if ctx.quick:
+            modes = ["plain"] + [LIFTS[1 + (i + j * 2) % (len(LIFTS) - 1)] for j in range(2)]
+            vn = ["optimize", LIB_VARIANTS[1 + i % (len(LIB_VARIANTS) - 1)]]
+        else:
+            modes = list(LIFTS)
+            vn = list(LIB_VARIANTS)
+        plan.append((rel, modes, vn))
+    return plan
+
+
+def direction_lib(ctx, want_abs):
+    plan = library_plan(ctx)
+    res = core.pmap_safe(_replay_library_q, [(rel, modes, vn, want_abs) for rel, modes, vn in plan], timeout=300)
+    return list(zip(plan, res))
+
+
+def lib_features(lm):
+    """features of a lifted ORIGINAL model that the guards of the known findings refer to"""
+    ops = {n.op_type for n in lm.graph.node} | {n.op_type for f in lm.functions for n in f.node}
+
+    def sub_ops(g):
+        for n in g.node:
+            for a in n.attribute:
+                if a.type == a.GRAPH:
+                    ops.add("*graph")
+                    for n2 in a.g.node:
+                        ops.add(n2.op_type)
+                    sub_ops(a.g)
+
+    sub_ops(lm.graph)
+    allnodes = list(lm.graph.node) + [n for f in lm.functions for n in f.node]
+    for n in lm.graph.node:
+        for a in n.attribute:
+            if a.type == a.GRAPH:
+                allnodes += list(a.g.node)
+    return {
+        "ir_version": lm.ir_version,
+        "opset": next((o.version for o in lm.opset_import if o.domain in ("", "ai.onnx")), 0),
+        "seq_ops": bool(ops & {"SplitToSequence", "ConcatFromSequence", "SequenceAt", "SequenceConstruct"}),
+        "castlike_nosat": any(n.op_type == "CastLike" and any(a.name == "saturate" and a.i == 0 for a in n.attribute) for n in allnodes),
+        "func_ref": any(a.ref_attr_name for f in lm.functions for n in f.node for a in n.attribute),
+        "func_ref_cast": any(n.op_type == "Cast" and any(a.name == "to" and a.ref_attr_name for a in n.attribute) for f in lm.functions for n in f.node),
+    }
+
+
+NOT_INLINING = {"rewrite", "rewrite_pass_ir", "optimize_noinline", "fold_constants", "fold_constants_ir_inf_shouldfold", "remove_unused_nodes"}
+
+
+def lib_attribute(rel, mode, v, symptom, detail, feats=None):
+    """known findings on lifted library models are identified by a guard over the lifted original (features, lifting) and the symptom"""
+    feats = feats or {}
+    detail = str(detail)
+    if symptom == "raise":
+        if "split_to_sequence" in v["site"] and "'NoneType' object has no attribute 'ndim'" in detail:
+            return "split_to_sequence_scalar_split_raise"
+        if feats.get("func_ref") and "ref_attr_name=" in detail and v["name"] in NOT_INLINING:
+            return "rule_ref_attr_raise"
+        return None
+    if symptom in ("check", "load") and feats.get("seq_ops") and 0 < feats.get("opset", 99) < 13 and ("has input size" in detail or "invalid model" in detail):
+        return "sequence_pe_opset13_forms"
+    if symptom == "check" and feats.get("ir_version", 99) < 4 and "in initializer but not in graph input" in detail:
+        return "lift_constants_ir3"
+    if symptom == "value" and feats.get("castlike_nosat"):
+        return "castlike_drops_saturate"
+    if symptom in ("load", "value", "run") and mode == "func" and feats.get("func_ref_cast") and v["name"] in NOT_INLINING:
+        return "cast_identity_ref_attr"
+    if mode == "ovr":
+        if symptom == "sig" and "lost their default" in detail:
+            return "overridable_default_dropped"
+        if symptom == "run" and "Required inputs" in detail:
+            return "overridable_default_dropped"
+        if symptom in ("value", "run"):
+            return "overridable_read_as_const"
+    return None
